@@ -16,6 +16,11 @@ CHECKS = {
         text='Exploration with CPython itself as the reference model. The same generated source is executed statement by statement by the interpreter (TypeError = inconsistent hierarchy) and analysed by pydoctor; linearisation, inconsistency reports (recorded through a System.msg monitor), member lookup, inherited docstrings, inherited-member tables and "overrides" notes are compared for every class. The space the property names (every ordered choice of bases, <=5 classes) is enumerated completely; n=6 and multi-module/generic hierarchies are sampled.',
         note='Trusts CPython 3.12 type() and the generated member layout; classes that CPython cannot build because an earlier class was refused are not judged; explicit typing.Generic[T] bases are generated only where typing does not rewrite the bases at run time.',
         ref='4/C05'),
+    'C15': dict(
+        technique='reference-model monitor: text produced by the real colorize_pyval (block, inline and wrapped/truncated settings) is parsed back by CPython and compared with the source AST after documented-spelling normalisation; mechanism localisation by pattern rewriting',
+        text='Exploration with CPython\'s parser as reader of the displayed text. Every depth-2 expression tree (form x hole x inner form), every depth-3 operator chain over all operand positions, every literal leaf kind, re.compile calls and random deeper trees are rendered by the real colouriser under unlimited, inline and small linelen/maxlines settings; complete outputs must read back as the same expression (wrap markers removed), incomplete ones must end in the ellipsis marker. A failing expression is attributed to a known mechanism only if rewriting that syntactic pattern away makes it pass and putting it back makes it fail; anything else is a new violation.',
+        note='Trusts ast.parse/ast.unparse of CPython 3.12 and the normaliser vf/ref/exprnorm.py (quotes, number formatting, set([..]), regex re-spelling compared by parse tree). Five defects are listed as known findings by mechanism.',
+        ref='4/C15'),
     'C19': dict(
         technique='trace monitor: every visit/depart dispatched through visitor._BaseVisitor is recorded (wrapped from the harness) and checked offline by a stack automaton and against an executable reading of the documented contract; exhaustive over trees<=4 x prunings x extension timings; builder scope-stack invariant hooked after processModuleAST',
         text='Exploration. Event traces of the real Visitor.walk/walkabout are recorded at the dispatch boundary and compared, per visitor, with the trace the documented contract requires, and run through a balance/nesting/order automaton. The bounded space of the property (all trees of <=4 nodes x 5^n pruning assignments x 16 timing subsets, both traversals) is completed on every run; the real ASTBuilder with its real extensions plus four recording extensions is traced on real packages and generated modules, and its scope stack is checked after every module.',
